@@ -217,7 +217,13 @@ def run(chk):
                 {"graph": np.full((2, 2, 2), ""), "val_matrix": np.zeros((2, 2, 2)), "p_matrix": np.ones((2, 3, 2))},
                 {"graph": np.full((2,), ""), "val_matrix": np.zeros((2,)), "p_matrix": np.ones((2,))},
                 {"graph": np.full((2, 2, 1, 1), ""), "val_matrix": np.zeros((2, 2, 1, 1)), "p_matrix": np.ones((2, 2, 1, 1))},
-                {"graph": np.full((2, 2), ""), "val_matrix": np.zeros((2, 2, 2)), "p_matrix": np.ones((2, 2))}):
+                {"graph": np.full((2, 2), ""), "val_matrix": np.zeros((2, 2, 2)), "p_matrix": np.ones((2, 2))},
+                # the same NUMBER of entries in another shape (a reshape would accept these and read values at wrong positions)
+                {"graph": np.full((2, 2, 4), "-->"), "val_matrix": np.arange(16.0).reshape(4, 2, 2), "p_matrix": np.ones((2, 2, 4))},
+                {"graph": np.full((2, 2, 4), "-->"), "val_matrix": np.arange(16.0).reshape(2, 2, 4), "p_matrix": np.ones((2, 4, 2))},
+                {"graph": np.full((4, 4), "o-o"), "val_matrix": np.arange(16.0).reshape(2, 2, 4), "p_matrix": np.ones((4, 4))},
+                {"graph": np.full((2, 2, 2), "-->"), "val_matrix": np.zeros((2, 2, 2)), "p_matrix": np.ones((2, 4))},
+                {"graph": np.full((2, 2, 2), "-->"), "val_matrix": np.zeros((4, 2)), "p_matrix": np.ones((2, 2, 2))}):
         try:
             pcmci_to_networkx(bad)
             chk.violation("counterexample", "mismatched / malformed array shapes did not raise ValueError",
